@@ -507,6 +507,7 @@ func (r *sortReg) seqSort(elem string) string {
 		return s
 	}
 	r.seqs[s] = true
+	elt := r.eltFn(elem) // declared first: the view of an array segment is stated through it
 	p := "ys.seq." + id + "."
 	f := func(n string) string { return sym(p + n) }
 	var d []string
@@ -548,7 +549,7 @@ func (r *sortReg) seqSort(elem string) string {
 	// view of a slice / array segment
 	arr := "(m (Array Int " + elem + ")) (o Int) (n Int)"
 	ax(arr, app(f("ofarr"), "m", "o", "n"), fmt.Sprintf("(=> (>= n 0) (= (%s (%s m o n)) n))", f("len"), f("ofarr")))
-	ax(arr+" (k Int)", app(f("at"), app(f("ofarr"), "m", "o", "n"), "k"), fmt.Sprintf("(=> (and (<= 0 k) (< k n)) (= (%s (%s m o n) k) (select m (+ o k))))", f("at"), f("ofarr")))
+	ax(arr+" (k Int)", app(f("at"), app(f("ofarr"), "m", "o", "n"), "k"), fmt.Sprintf("(=> (and (<= 0 k) (< k n)) (= (%s (%s m o n) k) (%s m o k)))", f("at"), f("ofarr"), elt))
 	ax(arr+" (k Int)", app(f("drop"), app(f("ofarr"), "m", "o", "n"), "k"), fmt.Sprintf("(=> (and (<= 0 k) (<= k n)) (= (%s (%s m o n) k) (%s m (+ o k) (- n k))))", f("drop"), f("ofarr"), f("ofarr")))
 	// guarded extensionality
 	ax(a+" "+b, app(f("eq"), "a", "b"), fmt.Sprintf("(= (%s a b) (= a b))", f("eq")))
